@@ -19,6 +19,40 @@ CLAIMED = {
     },
 }
 
+CLAIMED.update({
+    'C03': {
+        'technique': 'static analysis: finite-domain constant propagation over MIR + reference join model as a soundness bound',
+        'level': ('Static, exhaustive over join types x flags: the decision tables that gate join rewrites (lr_is_preserved, '
+                  'on_lr_is_preserved + optimizer alias, eliminate_outer, the join arm of PropagateEmptyRelation over the named '
+                  'locals left_empty/right_empty incl. NULL-padded and pass-through replacements, push_down_join limits) are '
+                  'extracted from MIR and each enabled rewrite must be an identity in a brute-force relational model. A wrong '
+                  'entry is exactly "filter pushed below the null-supplying side". The rewrites' mechanics and all other '
+                  'rules are not decided.'),
+    },
+    'C05': {
+        'technique': 'static analysis: finite-domain constant propagation over MIR + reference join model bounds + cross-table laws',
+        'level': ('Static, exhaustive over the ten join types (x JoinSide): final-emission tables of hash/NLJ/symmetric/piecewise '
+                  'joins lie between the model's must/may bounds, symmetric == asymmetric under negate+swap, empty-build/empty-map '
+                  'short-circuits only where the model result is empty, probe-side tables stream a side that is in the output, '
+                  'build_join_schema reads exactly the sides the model outputs and adds a non-nullable mark column only for mark '
+                  'joins. Hash maps, bitmaps, cursors, filters and batching are not decided.'),
+    },
+    'C28': {
+        'technique': 'static analysis: finite-domain constant propagation over MIR; cross-table consistency of sibling decision tables',
+        'level': ('Static, exhaustive per join type: a join operator (Hash, NLJ, SMJ, PWMJ) may declare a side order-preserving '
+                  'only if it is that operator's probe side and the operator appends no rows of that type after the probe phase '
+                  '(its own tables); RepartitionExec declares order only under preserve_order or one input partition. Equivalence '
+                  'classes, constants, monotonicity and partitioning keys are value-dependent and not decided.'),
+    },
+    'C30': {
+        'technique': 'static analysis: finite-domain constant propagation over MIR + reference join model; logical/physical sibling tables',
+        'level': ('Static, exhaustive (10 join types x 2 sides): join output nullability — whenever the model can NULL-extend a side '
+                  'its fields are forced nullable, in the physical output_join_field and in the logical build_join_schema, and the '
+                  'two agree on every side present in the output. Only this clause of C30 is decided (no data types, no function '
+                  'return types, no runtime batches).'),
+    },
+})
+
 NA = {
     'C01': 'whole-pipeline value semantics over all queries x all table contents: functional verification, no clause visible in code shape beyond C03/C05/C47',
     'C08': 'ordering/permutation of runtime values (loser tree, cursors, heaps are value algorithms); no structural clause',
